@@ -34,11 +34,33 @@ def gen_var_font(rng, avar=None, hvar=None, kern=True):
     from fontTools.ttLib import newTable
     from props.C07 import _box, _add_hvar
     order = [".notdef", "space", "a", "b", "c", "d", "a.alt", "b.alt", "c.alt"]
+    # nested composites: "inner" is built from simple glyphs, "ainner" / "zinner" (names sorting before and after it) use it as a
+    # component, "aaouter" nests one level deeper; component offsets vary, so the box of an outer composite depends on its
+    # inner composites having been instanced first
+    comps = {}
+    if rng.chance(60):
+        comps = {"inner": [("a", (0, 0)), ("b", (rng.randint(-200, 400), rng.randint(-50, 50)))],
+                 "ainner": [("inner", (rng.randint(-300, 100), 0)), ("c", (500, 10))],
+                 "zinner": [("c", (0, 0)), ("inner", (rng.randint(-100, 300), 20))],
+                 "aaouter": [("ainner", (rng.randint(-250, 50), 0)), ("d", (300, 0))]}
+    simple = list(order)
+    order = order + list(comps)
     adv = {g: 300 + 40 * i for i, g in enumerate(order)}
     fb = FontBuilder(1000, isTTF=True); fb.setupGlyphOrder(order)
-    fb.setupCharacterMap({32: "space", 97: "a", 98: "b", 99: "c", 100: "d"})
-    fb.setupGlyf({g: _box(adv[g], 300 + 50 * i) for i, g in enumerate(order)})
-    fb.setupHorizontalMetrics({g: (adv[g], 20) for g in order}); fb.setupHorizontalHeader(ascent=800, descent=-200)
+    cm_ = {32: "space", 97: "a", 98: "b", 99: "c", 100: "d"}; cm_.update({0xE000 + i: g for i, g in enumerate(comps)})
+    fb.setupCharacterMap(cm_)
+    glyphs = {g: _box(adv[g], 300 + 50 * i) for i, g in enumerate(simple)}
+    if comps:
+        from fontTools.ttLib.tables._g_l_y_f import Glyph, GlyphComponent
+        for g, parts in comps.items():
+            gl = Glyph(); gl.numberOfContours = -1; gl.components = []
+            for nm, (x_, y_) in parts:
+                c_ = GlyphComponent(); c_.glyphName = nm; c_.x, c_.y = x_, y_; c_.flags = 0x4; gl.components.append(c_)
+            glyphs[g] = gl
+    fb.setupGlyf(glyphs)
+    # left side bearings equal xMin (what every reader that honours hmtx assumes for a font without HVAR lsb mappings)
+    fb.font["glyf"].compile(fb.font)
+    fb.setupHorizontalMetrics({g: (adv[g], getattr(fb.font["glyf"][g], "xMin", 0) if fb.font["glyf"][g].numberOfContours else 0) for g in order}); fb.setupHorizontalHeader(ascent=800, descent=-200)
     fb.setupNameTable({"familyName": "Gen08", "styleName": "Regular"}); fb.setupOS2(); fb.setupPost()
     two = rng.chance(60)
     axes = [("wght", 100, 400, 900, "Weight")] + ([("wdth", 50, 100, 200, "Width")] if two else [])
@@ -55,6 +77,7 @@ def gen_var_font(rng, avar=None, hvar=None, kern=True):
             if key in used: continue
             used.add(key)
             d = [(rng.randint(-60, 60), rng.randint(-40, 40)) for _ in range(4)]
+            if g in comps: d = [(rng.randint(-120, 120), rng.randint(-40, 40)) for _ in comps[g]]      # one delta per component offset
             aw = rng.randint(-50, 80)
             tv.append(TupleVariation(sup, d + [(0, 0), (aw, 0), (0, 0), (0, 0)]))
             awd.setdefault(g, {})[key] = aw
@@ -89,6 +112,19 @@ def gen_var_font(rng, avar=None, hvar=None, kern=True):
             if two and j % 2: vk.append("pos %s %s (wght=400,wdth=100:%d wght=400,wdth=200:%d wght=900,wdth=100:%d);" % (x, y, rng.randint(-80, 80), rng.randint(-80, 80), rng.randint(-80, 80)))
             else: vk.append("pos %s %s (wght=100:%d wght=400:%d wght=%d:%d wght=900:%d);" % (x, y, rng.randint(-80, 80), rng.randint(-80, 80), rng.choice([250, 650, 700]) , rng.randint(-80, 80), rng.randint(-80, 80)))
         addOpenTypeFeaturesFromString(font, "languagesystem DFLT dflt;\nfeature kern {\n  %s\n} kern;\n" % "\n  ".join(vk))
+        if rng.chance(45):
+            # the lookup continues in a second glyph-pair subtable that lists the same pairs AGAIN with other values (feaLib would
+            # fold them, so the copy is inserted by hand): the first subtable decides those pairs, the second is dormant for them —
+            # and must stay so after the instancer has merged the subtables
+            import copy
+            for lk_ in font["GPOS"].table.LookupList.Lookup:
+                st0 = lk_.SubTable[0]
+                if lk_.LookupType == 2 and getattr(st0, "Format", 0) == 1 and len(lk_.SubTable) == 1:
+                    st1 = copy.deepcopy(st0)
+                    for ps_ in st1.PairSet:
+                        for pvr_ in ps_.PairValueRecord:
+                            if pvr_.Value1 is not None and getattr(pvr_.Value1, "XAdvance", None) is not None: pvr_.Value1.XAdvance += rng.choice([-300, 250, 400])
+                    lk_.SubTable.append(st1); lk_.SubTableCount = 2
     if rng.chance(60):
         # conditional substitutions (GSUB FeatureVariations, 'rvrn'): one or more records, each a union of boxes in normalised space
         from fontTools.varLib.featureVars import addFeatureVariations
@@ -225,6 +261,26 @@ def compare_instance(data, inst_bytes, inst_font, axes, ranges, locs, texts, opt
                 for c_ in (rec_.ConditionSet.ConditionTable if rec_.ConditionSet else []):
                     tag_ = f0["fvar"].axes[c_.AxisIndex].axisTag
                     cond_edges += [(tag_, c_.FilterRangeMinValue), (tag_, c_.FilterRangeMaxValue)]
+    def tree(font, g, seen=None):
+        seen = seen if seen is not None else []
+        if g in seen: return seen
+        seen.append(g)
+        if "glyf" in font and font["glyf"][g].isComposite():
+            for c_ in font["glyf"][g].components: tree(font, c_.glyphName, seen)
+        return seen
+    if "glyf" in f0 and "glyf" in inst_font and "hmtx" in inst_font:
+        # placement: where the original's left side bearings are the outlines' xMin, the instance's must be too (readers that
+        # honour hmtx shift the outline by lsb - xMin)
+        g0 = f0["glyf"]; g1 = inst_font["glyf"]
+        if all(f0["hmtx"][g][1] == g0[g].xMin for g in order if g0[g].numberOfContours):
+            for g in order:
+                if g1[g].numberOfContours:
+                    g1[g].recalcBounds(g1)
+                    # a composite's box is computed from unrounded component outlines and offsets, the stored ones are rounded one
+                    # by one: one unit per glyph of its component tree
+                    depth_ = len(tree(inst_font, g)) - 1
+                    if abs(inst_font["hmtx"][g][1] - g1[g].xMin) > depth_:
+                        return "left side bearing of %r is %d in the instance but its outline starts at xMin %d (the original's agree): the glyph is drawn shifted" % (g, inst_font["hmtx"][g][1], g1[g].xMin)
     cff2 = "CFF2" in f0
     nreg = 1
     if cff2 and "CFF2" in inst_font:
@@ -238,11 +294,13 @@ def compare_instance(data, inst_bytes, inst_font, axes, ranges, locs, texts, opt
         step = max(1, len(order) // 40)
         for gid in range(0, len(order), step):
             g = order[gid]
-            n_act = _active_tuples(inst_font, g, nl) if not cff2 else 2
             # 0.5 for the rounded new default, per_tuple for each rounded tuple active here, and 0.5 for every original tuple: a rebased
-            # piece whose deltas all round to zero is dropped from the instance and cannot be counted there
-            n_orig = len(f0["gvar"].variations.get(g, [])) if "gvar" in f0 else 0
-            tol = 0.5 + per_tuple * n_act + 0.5 * n_orig + 0.01
+            # piece whose deltas all round to zero is dropped from the instance and cannot be counted there; a composite adds the
+            # budgets of the glyphs it is built from to that of its own offsets
+            members = tree(f0, g) if not cff2 else [g]
+            n_act = sum(_active_tuples(inst_font, m_, nl) for m_ in members) if not cff2 else 2
+            n_orig = sum(len(f0["gvar"].variations.get(m_, [])) for m_ in members) if "gvar" in f0 else 0
+            tol = 0.5 * len(members) + per_tuple * n_act + 0.5 * n_orig + 0.01
             a = _pts(h0.outline(gid), 1.0 if cff2 else 0.0); b = _pts(h1.outline(gid), 1.0 if cff2 else 0.0)
             if len(a) != len(b) or any(isinstance(x, str) != isinstance(y, str) or (isinstance(x, str) and x != y) for x, y in zip(a, b)):
                 # an outline that collapses to nothing in both is fine; a different structure is not
